@@ -275,6 +275,62 @@ Proof.
       rewrite !andb_true_iff in *. split; [tauto | apply IH; tauto].
 Qed.
 
+(* ---------------- the domain and encodability do not depend on the order of map entries ---------------- *)
+
+Definition shape_val (v : ipld) : bool :=
+  match v with
+  | IString _ => true
+  | IMap [(k2, IString _)] => beq k2 k_bytes
+  | _ => false
+  end.
+
+Lemma slash_shape_eq m : slash_shape m = match m with [(k, v)] => beq k k_slash && shape_val v | _ => false end.
+Proof. destruct m as [|[k v] [|? ?]]; reflexivity. Qed.
+
+Lemma sort_map_one {A} (x : bstr * A) : sort_map [x] = [x].
+Proof. reflexivity. Qed.
+
+Lemma shape_val_canon v : shape_val (canon v) = shape_val v.
+Proof.
+  destruct v as [| | | | | l | m |]; try reflexivity.
+  rewrite canon_map_eq. destruct m as [|[k2 v2] [|kv3 m]]; try reflexivity.
+  - cbn [map on_snd fst snd]. rewrite sort_map_one. cbn [shape_val]. destruct v2; reflexivity.
+  - pose proof (sort_map_length (map (on_snd canon) ((k2, v2) :: kv3 :: m))) as L.
+    destruct (sort_map (map (on_snd canon) ((k2, v2) :: kv3 :: m))) as [|a [|b r]]; cbn in L; try discriminate.
+    destruct a as [ka va]. cbn [shape_val]. destruct va, v2; reflexivity.
+Qed.
+
+Lemma slash_shape_canon m : slash_shape (sort_map (map (on_snd canon) m)) = slash_shape m.
+Proof.
+  destruct m as [|[k v] [|kv2 m]]; try reflexivity.
+  - cbn [map on_snd fst snd]. rewrite sort_map_one, !slash_shape_eq. unfold on_snd. cbn [fst snd]. rewrite shape_val_canon. reflexivity.
+  - pose proof (sort_map_length (map (on_snd canon) ((k, v) :: kv2 :: m))) as L.
+    destruct (sort_map (map (on_snd canon) ((k, v) :: kv2 :: m))) as [|a [|b r]]; cbn in L; try discriminate.
+    destruct a. reflexivity.
+Qed.
+
+Lemma forallb_map_ext {A B} (f : B -> bool) (g : A -> bool) (h : A -> B) l :
+  Forall (fun x => f (h x) = g x) l -> forallb f (map h l) = forallb g l.
+Proof. induction 1 as [|x l Hx _ IH]; [reflexivity|]. cbn [map forallb]. rewrite Hx, IH. reflexivity. Qed.
+
+Theorem json_safe_canon v : json_safe (canon v) = json_safe v.
+Proof.
+  induction v as [| | | | | l IH | m IH |] using ipld_ind'; try reflexivity.
+  - cbn [canon json_safe]. apply forallb_map_ext. exact IH.
+  - rewrite canon_map_eq. cbn [json_safe]. rewrite slash_shape_canon. f_equal.
+    rewrite (forallb_perm _ _ _ (sort_map_perm _)). apply forallb_map_ext.
+    eapply Forall_impl; [|exact IH]. intros kv H. unfold on_snd. cbn [fst snd]. rewrite H. reflexivity.
+Qed.
+
+Theorem json_encodable_canon v : json_encodable (canon v) = json_encodable v.
+Proof.
+  induction v as [| | | | | l IH | m IH |] using ipld_ind'; try reflexivity.
+  - cbn [canon json_encodable]. apply forallb_map_ext. exact IH.
+  - rewrite canon_map_eq. cbn [json_encodable].
+    rewrite (forallb_perm _ _ _ (sort_map_perm _)). apply forallb_map_ext.
+    eapply Forall_impl; [|exact IH]. intros kv H. unfold on_snd. cbn [fst snd]. exact H.
+Qed.
+
 (* ---------------- strings of the printed value are valid UTF-8 ---------------- *)
 
 Lemma table_ascii tbl s : forallb (fun c => c <? 128) tbl = true -> Forall (fun c => In c tbl) s -> Forall (fun c => c < 128) s.
